@@ -188,7 +188,20 @@ def _t_kron(c):
 @template("c:cross", "contract", weight=2)
 def _t_cross(c):
     res = c.shape(0, 2)
-    k = c.int(0, 3)
+    k = c.int(0, 4)
+    if k == 4:  # the vector axes anywhere AND batch axes that broadcast (lower rank / length one on either side)
+        ba, bb = c.bshape(res), c.bshape(res)
+        aa, ab = c.int(0, len(ba)), c.int(0, len(bb))
+        sa, sb = list(ba), list(bb)
+        sa.insert(aa, 3)
+        sb.insert(ab, 3)
+        a, b = tuple(sa), tuple(sb)
+        nres = len(onp.broadcast_shapes(ba, bb)) + 1
+        kw = {"axisa": c.signed_axis(aa, len(a)), "axisb": c.signed_axis(ab, len(b))}
+        if c.bool():
+            kw["axisc"] = c.signed_axis(c.int(0, nres - 1), nres)
+        fn = lambda ns, x, y: ns.cross(x, y, **kw)
+        return Call("c:cross", fn, [a, b], desc=["cross", list(a), list(b), kw], feats=_cf("cross", a, b, kind=k, broadcast=ba != bb))
     if k == 0:  # plain, last axis, possibly broadcasting
         a = c.bshape(res) + (3,)
         b = c.bshape(res) + (3,)
